@@ -334,3 +334,33 @@ Proof.
   - exact Hfit.
   - exists s'. repeat split; assumption.
 Qed.
+
+(* ---------- the whole Finalize result is schedule independent ---------- *)
+Lemma run_ops_ok : forall ops d, db_ok d -> db_ok (fst (fst (run_ops d ops))).
+Proof.
+  induction ops as [|o t IH]; intros d Hok; cbn [run_ops]; [exact Hok|].
+  assert (Hok1 : db_ok (fst (fst (eff d o)))).
+  { destruct o as [k e|k e|k]; cbn [eff].
+    - apply put_ok, Hok.
+    - destruct (db_get d k); cbn [fst]; apply put_ok, Hok.
+    - destruct (db_get d k); cbn [fst]; [apply del_ok, Hok|exact Hok]. }
+  destruct (eff d o) as [[d1 c1] x1]. cbn [fst] in Hok1.
+  specialize (IH d1 Hok1). destruct (run_ops d1 t) as [[d2 c2] x2]. exact IH.
+Qed.
+
+Lemma finalize_schedule_indep : forall s ops (trs : list (list (key * elem))) tr',
+  db_ok (s_db s) -> interleave trs tr' ->
+  let d1 := fst (fst (run_ops (s_db s) ops)) in
+  let cr := snd (fst (run_ops (s_db s) ops)) in
+  let de := snd (run_ops (s_db s) ops) in
+  dels (concat trs) d1 = dels tr' d1
+  /\ length (concat trs) = length tr'
+  /\ ceq (acc_removes (acc_adds (s_acc s) cr) (de ++ map snd (concat trs)))
+         (acc_removes (acc_adds (s_acc s) cr) (de ++ map snd tr')).
+Proof.
+  intros s ops trs tr' Hok Hi d1 cr de.
+  pose proof (interleave_perm _ trs tr' Hi) as P.
+  split; [apply dels_perm; [exact P|apply run_ops_ok, Hok]|].
+  split; [apply Permutation_length, P|].
+  apply block_acc_perm; [apply Permutation_refl|apply Permutation_refl|apply Permutation_map, P].
+Qed.
